@@ -100,3 +100,17 @@ B("c02-knapsack-time", "C02", "C02.R2", (P + "knapsack/env.py", "Knapsack.step",
 B("c02-cvrp-cache", "C02", "C02.R1", (R + "cvrp/env.py", "CVRP._state_to_observation", "insert_first", "self._cache = state"))
 B("c02-helper-mutates-arg", "C02", "C02.R3", (R + "cleaner/env.py", "Cleaner.step", "insert_first", "state.grid = state.grid"))
 T("c02-twin-local-dict", "C02", (R + "snake/env.py", "Snake.step", "insert_first", "scratch = {}\nscratch['a'] = action"))
+
+# ---------------------------------------------------------------- C07 (and C04.R2 / C01.R5 through the same engine)
+B("c07-maze-swap-extent", "C07", "C07.R1", (R + "maze/env.py", "Maze", "expr", "row < self.num_rows", "row < self.num_cols"))
+B("c07-cleaner-swap", "C07", "C07.R1", (R + "cleaner/env.py", "Cleaner", "expr", "x < self.num_cols", "x < self.num_rows"))
+B("c07-snake-divmod", "C07", "C07.R1", (R + "snake/env.py", "Snake._sample_fruit_coord", "expr", "jnp.divmod(fruit_index, self.num_cols)", "jnp.divmod(fruit_index, self.num_rows)"))
+B("c07-snake-bounds", "C07", "C07.R1", (R + "snake/env.py", "Snake._get_action_mask", "expr", "new_head_position.col >= self.num_cols", "new_head_position.col >= self.num_rows"))
+B("c07-maze-gen-args", "C07", "C07.R1", (R + "maze/generator.py", "RandomGenerator.__call__", "expr", "maze_generation.generate_maze(self.num_cols, self.num_rows, maze_key)", "maze_generation.generate_maze(self.num_rows, self.num_cols, maze_key)"))
+B("c07-pacman-mod", "C07", "C07.R1", (R + "pac_man/utils.py", "player_step", "expr", "new_pos_col % x_size", "new_pos_col % y_size"))
+B("c07-pacman-spec", "C07", "C07.R1", (R + "pac_man/env.py", "PacMan.observation_spec", "expr", "self.x_size - 1", "self.y_size - 1"))
+B("c07-minesweeper-flatten", "C07", "C07.R1", (L + "minesweeper/utils.py", "explored_mine", "expr", "state.board.shape[-1]", "state.board.shape[-2]"))
+B("c07-maze-divmod", "C07", "C07.R1", (R + "maze/generator.py", "RandomGenerator.__call__", "expr", "jnp.divmod(start_and_target_indices, self.num_cols)", "jnp.divmod(start_and_target_indices, self.num_rows)"))
+T("c07-twin-flip", "C07", (R + "maze/env.py", "Maze", "expr", "row < self.num_rows", "self.num_rows > row"))
+T("c07-twin-le", "C07", (R + "cleaner/env.py", "Cleaner", "expr", "x < self.num_cols", "x <= self.num_cols - 1"))
+B("c04-cleaner-mask-axis", "C04", "C04.R2", (R + "cleaner/env.py", "Cleaner", "expr", "y < self.num_rows", "y < self.num_cols"))
